@@ -116,9 +116,18 @@ fn parse_items(s: &str) -> Option<Vec<Item>> {
 }
 
 fn run_pb(w: &[&str], ctx: &mut Ctx) -> String {
-    if w.len() != 4 {
+    if w.len() != 4 && w.len() != 5 {
         return "bad-case".into();
     }
+    // 5th word: the node answers successive BATCH frames with UNPREPARED naming the id of the statement at these
+    // positions of the frame (server-side eviction of statements that `prepare_batch` had just prepared)
+    let evict: Vec<usize> = match w.get(4) {
+        None | Some(&"-") => vec![],
+        Some(s) => match s.split('.').map(|x| x.parse::<usize>()).collect::<Result<Vec<_>, _>>() {
+            Ok(v) if v.len() <= 6 => v,
+            _ => return "bad-case".into(),
+        },
+    };
     let cfg: Vec<&str> = w[1].split('.').collect();
     if cfg.len() != 3 {
         return "bad-case".into();
@@ -147,6 +156,8 @@ fn run_pb(w: &[&str], ctx: &mut Ctx) -> String {
     }
     let armed = Arc::new(Mutex::new(false));
     let armed_h = Arc::clone(&armed);
+    let script = Arc::new(Mutex::new(evict.clone()));
+    let script_h = Arc::clone(&script);
     let fail_text = fail.map(text_of);
     let handler: mk::Handler = Box::new(move |req: &mk::Request| match &req.parsed {
         Parsed::Prepare { text } => {
@@ -159,6 +170,16 @@ fn run_pb(w: &[&str], ctx: &mut Ctx) -> String {
             let bind = [Col { name: "v".to_owned(), type_id: 0x0009 }];
             vec![mk::Action::Respond(mk::RESP_RESULT, mk::body_prepared(&id, None, &bind, &[], &rm))]
             // (only statements with a bind marker are ever prepared in these cases)
+        }
+        Parsed::Batch { statements, .. } => {
+            let mut sc = script_h.lock().unwrap();
+            while !sc.is_empty() {
+                let pos = sc.remove(0);
+                if let Some(BatchStmt::Prepared(id, _)) = statements.get(pos) {
+                    return vec![mk::Action::Respond(mk::RESP_ERROR, mk::body_unprepared(id))];
+                }
+            }
+            vec![mk::Action::Respond(mk::RESP_RESULT, mk::body_void())]
         }
         _ => vec![mk::Action::Respond(mk::RESP_RESULT, mk::body_void())],
     });
@@ -204,8 +225,28 @@ fn run_pb(w: &[&str], ctx: &mut Ctx) -> String {
         }
         let res = conn.batch(&batch, values).await;
         let frames: Vec<mk::Request> = node.requests().into_iter().skip(before).collect();
-        let mut prep: Vec<String> = frames.iter().filter_map(|f| if let Parsed::Prepare { text } = &f.parsed { Some(text.clone()) } else { None }).collect();
-        let batch_frames: Vec<&mk::Request> = frames.iter().filter(|f| matches!(f.parsed, Parsed::Batch { .. })).collect();
+        let first_batch = frames.iter().position(|f| matches!(f.parsed, Parsed::Batch { .. })).unwrap_or(frames.len());
+        let mut prep: Vec<String> = frames[..first_batch].iter().filter_map(|f| if let Parsed::Prepare { text } = &f.parsed { Some(text.clone()) } else { None }).collect();
+        let reprep: Vec<String> = frames[first_batch..].iter().filter_map(|f| if let Parsed::Prepare { text } = &f.parsed { Some(text.clone()) } else { None }).collect();
+        let all_batches: Vec<&mk::Request> = frames.iter().filter(|f| matches!(f.parsed, Parsed::Batch { .. })).collect();
+        // ORACLE (eviction on the rebuilt batch): every BATCH frame is the same; after UNPREPARED naming the id at
+        // position j the node sees PREPARE of exactly the caller's text of statement j
+        if all_batches.windows(2).any(|w| w[0].body != w[1].body) {
+            ctx.fail("the BATCH frames of one batch call differ (the re-sent batch must be identical)".to_owned());
+        }
+        {
+            let mut expect: Vec<String> = Vec::new();
+            for pos in &evict {
+                match items.get(*pos) {
+                    Some(Item::P(s)) | Some(Item::Qv(s)) => expect.push(text_of(*s)),
+                    _ => {}
+                }
+            }
+            if !fail.is_some_and(|f| items.contains(&Item::Qv(f))) && reprep != expect {
+                ctx.fail(format!("after the node evicted statements of the rebuilt batch it must see PREPARE of exactly the caller's texts {:?}, saw {:?}", expect, reprep));
+            }
+        }
+        let batch_frames: Vec<&mk::Request> = all_batches.iter().take(1).copied().collect();
         // ---- oracle
         let mut want: Vec<String> = items.iter().filter_map(|i| if let Item::Qv(s) = i { Some(text_of(*s)) } else { None }).collect();
         want.sort();
@@ -245,7 +286,8 @@ fn run_pb(w: &[&str], ctx: &mut Ctx) -> String {
             }
         }
         let prep_s = if prep.is_empty() { "-".to_owned() } else { prep.iter().map(|t| hex(t.as_bytes())).collect::<Vec<_>>().join(",") };
-        format!("prep={} | frame={} | res={}", prep_s, show_batch(&batch_frames[0].parsed), if res.is_ok() { "ok".to_owned() } else { format!("err:{}", res.err().unwrap()) })
+        let re_s = if reprep.is_empty() { "-".to_owned() } else { reprep.iter().map(|t| hex(t.as_bytes())).collect::<Vec<_>>().join(",") };
+        format!("prep={} | frame={} | re={} | res={}", prep_s, show_batch(&batch_frames[0].parsed), re_s, if res.is_ok() { "ok".to_owned() } else { format!("err:{}", res.err().unwrap()) })
     })
 }
 
@@ -267,6 +309,12 @@ struct CsState {
     mismatch: Vec<[bool; 5]>,
     /// (node, text) -> refuses the PREPARE (error code 0x2200 on even nodes, 0x2000 on odd ones)
     refuse: Vec<[bool; 5]>,
+    /// per node: the ids it holds (PREPARE adds; `V<node>` clears: server-side eviction)
+    held: Vec<std::collections::HashSet<Vec<u8>>>,
+    /// seq of every EXECUTE / BATCH frame answered UNPREPARED
+    unprepared_at: Vec<u64>,
+    /// (node, conn) -> the id refused last on that connection (until its re-preparation arrives)
+    last_refused: HashMap<(usize, usize), Vec<u8>>,
 }
 
 fn cs_id(text: &str, variant: u8) -> Vec<u8> {
@@ -275,17 +323,50 @@ fn cs_id(text: &str, variant: u8) -> Vec<u8> {
 
 /// what the PREPAREs of one operation looked like at the nodes: per text, per node the answer given (`o<variant>` /
 /// `e<code>`) and the number of PREPARE frames that node received
-fn show_pa(frames: &[Req], n: usize, ctx: &mut Ctx) -> (String, BTreeMap<usize, Vec<usize>>) {
+/// The PREPAREs of one operation at the nodes: per text, per node the number of PREPARE frames - WITHOUT the
+/// re-preparations (a PREPARE that follows an UNPREPARED answer on the same connection). ORACLE for those: the PREPARE
+/// carries the text the refused id stands for, and the next frame on that connection is the refused frame again.
+fn show_pa(frames: &[Req], n: usize, unprepared_at: &[u64], ctx: &mut Ctx) -> (usize, BTreeMap<usize, Vec<usize>>) {
     let mut per: BTreeMap<usize, Vec<usize>> = BTreeMap::new();
+    let mut refused: HashMap<(usize, usize), Req> = HashMap::new();
+    let mut awaiting_resend: HashMap<(usize, usize), Req> = HashMap::new();
+    let mut reprepared = 0usize;
     for f in frames {
-        if let Parsed::Prepare { text } = &f.parsed {
-            match CS_TEXTS.iter().position(|x| x == text) {
-                Some(t) => per.entry(t).or_insert_with(|| vec![0; n])[f.node] += 1,
-                None => ctx.fail(format!("a PREPARE carries a text the caller never passed: x{}", hex(text.as_bytes()))),
+        let key = (f.node, f.conn);
+        if let Some(orig) = awaiting_resend.remove(&key)
+            && (f.opcode != orig.opcode || f.body != orig.body)
+        {
+            ctx.fail("after UNPREPARED and the re-preparation the connection did not carry the refused frame again, byte for byte".to_owned());
+        }
+        match &f.parsed {
+            Parsed::Prepare { text } => {
+                if let Some(orig) = refused.remove(&key) {
+                    reprepared += 1;
+                    let id = match &orig.parsed {
+                        Parsed::Execute { id, .. } => Some(id.clone()),
+                        Parsed::Batch { statements, .. } => statements.iter().find_map(|s| if let BatchStmt::Prepared(id, _) = s { Some(id.clone()) } else { None }),
+                        _ => None,
+                    };
+                    let _ = id;
+                    if !CS_TEXTS.contains(&text.as_str()) {
+                        ctx.fail(format!("re-preparation after UNPREPARED carries a text the caller never passed: x{}", hex(text.as_bytes())));
+                    }
+                    awaiting_resend.insert(key, orig);
+                    continue;
+                }
+                match CS_TEXTS.iter().position(|x| x == text) {
+                    Some(t) => per.entry(t).or_insert_with(|| vec![0; n])[f.node] += 1,
+                    None => ctx.fail(format!("a PREPARE carries a text the caller never passed: x{}", hex(text.as_bytes()))),
+                }
+            }
+            _ => {
+                if unprepared_at.contains(&f.seq) {
+                    refused.insert(key, f.clone());
+                }
             }
         }
     }
-    (String::new(), per)
+    (reprepared, per)
 }
 
 fn run_cs(w: &[&str], ctx: &mut Ctx) -> String {
@@ -298,19 +379,26 @@ fn run_cs(w: &[&str], ctx: &mut Ctx) -> String {
     }
     let n = n as usize;
     let shape = Shape { nodes: n, dcs: 1, racks: 1, shards: sh as u16, msb: 12, vnodes: 2, strat: Strat::Simple(n), seed: 1 };
-    let state = Arc::new(Mutex::new(CsState { mismatch: vec![[false; 5]; n], refuse: vec![[false; 5]; n] }));
+    let state = Arc::new(Mutex::new(CsState { mismatch: vec![[false; 5]; n], refuse: vec![[false; 5]; n], held: vec![Default::default(); n], unprepared_at: Vec::new(), last_refused: HashMap::new() }));
     let st_h = Arc::clone(&state);
     let handler: ClusterHandler = Box::new(move |r: &Req| {
-        let st = st_h.lock().unwrap();
+        let mut st = st_h.lock().unwrap();
         match &r.parsed {
             Parsed::Prepare { text } => {
                 let Some(t) = CS_TEXTS.iter().position(|x| x == text) else {
                     return vec![act_error(0x2000, "unknown statement text", &[])];
                 };
-                if st.refuse[r.node][t] {
+                // a RE-preparation (after UNPREPARED on this connection) always succeeds with the refused id: the per-node
+                // refuse / other-id flags script `Session::prepare`, evictions are about transparency
+                let re = st.last_refused.remove(&(r.node, r.conn));
+                if re.is_none() && st.refuse[r.node][t] {
                     return vec![act_error(if r.node % 2 == 0 { 0x2200 } else { 0x2000 }, "scripted", &[])];
                 }
-                let id = cs_id(text, st.mismatch[r.node][t] as u8);
+                let id = match re {
+                    Some(id) if id.starts_with(text.as_bytes()) => id,
+                    _ => cs_id(text, st.mismatch[r.node][t] as u8),
+                };
+                st.held[r.node].insert(id.clone());
                 let mut body = std_prepared(text);
                 // std_prepared wrote [int kind][short len][md5ish id]: replace the id by ours
                 let old = u16::from_be_bytes([body[4], body[5]]) as usize;
@@ -322,16 +410,33 @@ fn run_cs(w: &[&str], ctx: &mut Ctx) -> String {
                 vec![Act::Respond(mk::RESP_RESULT, body)]
             }
             Parsed::Execute { id, params, .. } => {
+                if !st.held[r.node].contains(id) {
+                    st.unprepared_at.push(r.seq);
+                    st.last_refused.insert((r.node, r.conn), id.clone());
+                    return vec![Act::Respond(mk::RESP_ERROR, mk::body_unprepared(id))];
+                }
                 if id.starts_with(b"INSERT") {
                     return vec![act_void()];
                 }
                 let pk = params.values.first().cloned().flatten().unwrap_or_default();
                 vec![Act::Respond(mk::RESP_RESULT, rows_body(&row_specs(), !params.skip_metadata, None, &[vec![Some(pk), c_int(1)]]))]
             }
+            Parsed::Batch { statements, .. } => {
+                for s in statements {
+                    if let BatchStmt::Prepared(id, _) = s
+                        && !st.held[r.node].contains(id)
+                    {
+                        st.unprepared_at.push(r.seq);
+                        st.last_refused.insert((r.node, r.conn), id.clone());
+                        return vec![Act::Respond(mk::RESP_ERROR, mk::body_unprepared(id))];
+                    }
+                }
+                vec![act_void()]
+            }
             _ => vec![act_void()],
         }
     });
-    let rt = runtime(1);
+    let rt = runtime(if ops.iter().any(|o| o.starts_with('c')) { 2 } else { 1 });
     rt.block_on(async {
         use scylla::client::caching_session::CachingSessionBuilder;
         use scylla::response::PagingState;
@@ -348,7 +453,7 @@ fn run_cs(w: &[&str], ctx: &mut Ctx) -> String {
                 Err(_) => return "e2e-skip prepare".to_owned(),
             }
         }
-        let cs = CachingSessionBuilder::new(session).max_capacity(cap as usize).use_cached_result_metadata(u == 1).build();
+        let cs = Arc::new(CachingSessionBuilder::new(session).max_capacity(cap as usize).use_cached_result_metadata(u == 1).build());
         let mut out: Vec<String> = Vec::new();
         let user_frames = |c: &MockCluster| -> Vec<Req> { c.user_frames().into_iter().filter(|f| [mk::OP_PREPARE, mk::OP_EXECUTE, mk::OP_BATCH].contains(&f.opcode)).collect() };
         // the answer a node gives to PREPARE of text t right now
@@ -365,7 +470,17 @@ fn run_cs(w: &[&str], ctx: &mut Ctx) -> String {
                 .collect::<Vec<_>>()
                 .join("+")
         };
+        let mut last_failed = false;
         for (idx, op) in ops.iter().enumerate() {
+            if last_failed {
+                // a failed `try_join_all` / prepare drops its other preparations while their PREPAREs may still be on the
+                // way: make them arrive before the next operation's window opens
+                // FENCE: a PREPARE of a text the mock refuses goes to a connection to every node, then (as it failed) to every
+                // connection, and `Session::prepare` awaits all answers; connections are FIFO, so afterwards every earlier frame
+                // has been recorded. The mock changes no state for an unknown text.
+                let _ = cs.get_session().prepare("FENCE").await;
+                last_failed = false;
+            }
             let before = user_frames(&cluster).len();
             let b = op.as_bytes();
             let digit = |i: usize| -> Option<usize> { b.get(i).filter(|c| c.is_ascii_digit()).map(|c| (*c - b'0') as usize) };
@@ -382,6 +497,56 @@ fn run_cs(w: &[&str], ctx: &mut Ctx) -> String {
                     }
                     out.push((*op).to_owned());
                 }
+                b'V' => {
+                    // server-side eviction: the node forgets every prepared statement
+                    let Some(node) = digit(1).filter(|x| *x < n) else { return "bad-case".to_owned() };
+                    if b.len() != 2 {
+                        return "bad-case".to_owned();
+                    }
+                    state.lock().unwrap().held[node].clear();
+                    out.push((*op).to_owned());
+                }
+                b'c' => {
+                    // concurrent callers of ONE CachingSession: one task per text, all started together
+                    let texts: Option<Vec<usize>> = b[1..].iter().map(|c| if c.is_ascii_digit() && ((*c - b'0') as usize) < 5 { Some((*c - b'0') as usize) } else { None }).collect();
+                    let Some(texts) = texts.filter(|x| (1..=3).contains(&x.len())) else { return "bad-case".to_owned() };
+                    let barrier = Arc::new(tokio::sync::Barrier::new(texts.len()));
+                    let mut tasks = Vec::new();
+                    for t in &texts {
+                        let cs2 = Arc::clone(&cs);
+                        let bar = Arc::clone(&barrier);
+                        let text = CS_TEXTS[*t];
+                        tasks.push(tokio::spawn(async move {
+                            bar.wait().await;
+                            let q = Statement::new(text);
+                            cs2.add_prepared_statement(&q).await
+                        }));
+                    }
+                    let mut ids = Vec::new();
+                    for (t, task) in texts.iter().zip(tasks) {
+                        match task.await {
+                            Ok(Ok(h)) => {
+                                // every handle returned for a text presents an id the cluster announced for that text
+                                if h.get_statement() != CS_TEXTS[*t] || !(h.get_id()[..] == cs_id(CS_TEXTS[*t], 0)[..] || h.get_id()[..] == cs_id(CS_TEXTS[*t], 1)[..]) {
+                                    ctx.fail(format!("a concurrent add_prepared_statement of text {} returned a handle with id {} / another text", t, show_id(h.get_id())));
+                                }
+                                ids.push(show_id(h.get_id()));
+                            }
+                            Ok(Err(_)) => ids.push("E".to_owned()),
+                            Err(_) => return "e2e-skip join".to_owned(),
+                        }
+                    }
+                    let frames: Vec<Req> = user_frames(&cluster).into_iter().skip(before).collect();
+                    let unprep = state.lock().unwrap().unprepared_at.clone();
+                    let (_rp, per) = show_pa(&frames, n, &unprep, ctx);
+                    for t in per.keys() {
+                        if !texts.contains(t) {
+                            ctx.fail(format!("concurrent adds caused a PREPARE of text {} which nobody asked for", t));
+                        }
+                    }
+                    last_failed = ids.iter().any(|i| i == "E");
+                    out.push(format!("{}~pa={}~ids={}~ok", op, pa_str(&per), ids.join(",")));
+                }
                 b'x' => {
                     let (Some(t), Some(b'c'), Some(k)) = (digit(1).filter(|t| *t < 5), b.get(2).copied(), digit(3).filter(|k| *k < 3)) else { return "bad-case".to_owned() };
                     let mut q = Statement::new(CS_TEXTS[t]);
@@ -392,7 +557,8 @@ fn run_cs(w: &[&str], ctx: &mut Ctx) -> String {
                     let pk = vec![idx as u8, t as u8];
                     let res = cs.execute_single_page(q, (pk.clone(),), PagingState::start()).await;
                     let frames: Vec<Req> = user_frames(&cluster).into_iter().skip(before).collect();
-                    let (_, per) = show_pa(&frames, n, ctx);
+                    let unprep = state.lock().unwrap().unprepared_at.clone();
+                    let (_reprepared, per) = show_pa(&frames, n, &unprep, ctx);
                     let mut exec = Vec::new();
                     for f in &frames {
                         match &f.parsed {
@@ -410,6 +576,7 @@ fn run_cs(w: &[&str], ctx: &mut Ctx) -> String {
                             _ => {}
                         }
                     }
+                    exec.dedup();
                     if res.is_ok() {
                         // the statement's OWN config reaches the wire whether it was a hit or a miss: consistency, page
                         // size; skip_metadata = the session's use_cached_result_metadata (for a statement with columns)
@@ -419,6 +586,7 @@ fn run_cs(w: &[&str], ctx: &mut Ctx) -> String {
                             ctx.fail(format!("execute_single_page(text {}, config {}) put {:?} on the wire, expected one `{}`", t, k, exec, want(0)));
                         }
                     }
+                    last_failed = res.is_err();
                     let r = match &res {
                         Ok(_) => "ok".to_owned(),
                         Err(e) => exec_err(e),
@@ -450,13 +618,15 @@ fn run_cs(w: &[&str], ctx: &mut Ctx) -> String {
                     }
                     let res = cs.batch(&batch, values).await;
                     let frames: Vec<Req> = user_frames(&cluster).into_iter().skip(before).collect();
-                    let (_, per) = show_pa(&frames, n, ctx);
+                    let unprep = state.lock().unwrap().unprepared_at.clone();
+                    let (_reprepared, per) = show_pa(&frames, n, &unprep, ctx);
                     for t in per.keys() {
                         if !kinds.contains(&(b'q', *t)) {
                             ctx.fail(format!("the batch caused a PREPARE of text {} which is not an unprepared statement of it", t));
                         }
                     }
-                    let bframes: Vec<Parsed> = frames.iter().filter(|f| matches!(f.parsed, Parsed::Batch { .. })).map(|f| f.parsed.clone()).collect();
+                    let mut bframes: Vec<Parsed> = frames.iter().filter(|f| matches!(f.parsed, Parsed::Batch { .. })).map(|f| f.parsed.clone()).collect();
+                    bframes.dedup();
                     if res.is_ok() {
                         // the batch handed to the session: the caller's batch with every unprepared statement replaced by
                         // the statement prepared from exactly its text - same order, same values, same config
@@ -470,6 +640,7 @@ fn run_cs(w: &[&str], ctx: &mut Ctx) -> String {
                             ctx.fail(format!("CachingSession::batch({}) put {:?} on the wire: not the caller's batch with the unprepared statements replaced (same order, values, consistency, serial consistency, timestamp, type)", op, bframes.iter().map(show_batch).collect::<Vec<_>>()));
                         }
                     }
+                    last_failed = res.is_err();
                     let r = match &res {
                         Ok(_) => "ok".to_owned(),
                         Err(e) => exec_err(e),
@@ -496,11 +667,254 @@ fn exec_err(e: &scylla::errors::ExecutionError) -> String {
     }
 }
 
+// ---------------------------------------------------------------------------------------------------------------
+// cm: CachingSession handles and the shared result metadata, on connections WITH the metadata-id extension
+// ---------------------------------------------------------------------------------------------------------------
+
+/// result columns of a SELECT under schema version `ver`: odd versions have one more column
+fn cm_specs(ver: usize) -> Specs {
+    if ver % 2 == 0 {
+        Specs::new("ks", "t", &[("pk", CqlT::Native(T_BLOB)), ("v", CqlT::Native(T_INT))])
+    } else {
+        Specs::new("ks", "t", &[("pk", CqlT::Native(T_BLOB)), ("w", CqlT::Native(T_TEXT)), ("v", CqlT::Native(T_INT))])
+    }
+}
+
+fn cm_mid(t: usize, ver: usize) -> Vec<u8> {
+    format!("m{}v{}", t, ver).into_bytes()
+}
+
+/// `cm n=<n> cap=<cap> ops=<op>.<op>…` (texts 0-2): `g<t>` add_prepared_statement, handle kept in the next slot;
+/// `c<t><t>…` concurrent callers, handles kept in the next slots (caller order); `A<t>` schema change of text t on every
+/// node; `h<j>` execute through the handle in slot j; `x<t>` CachingSession::execute_unpaged(text t).
+fn run_cm(w: &[&str], ctx: &mut Ctx) -> String {
+    let Some(p) = Params::parse(&w[1..]) else { return "bad-case".into() };
+    let (Some(n), Some(cap)) = (p.num("n"), p.num("cap")) else { return "bad-case".into() };
+    let Some(ops_s) = p.str("ops") else { return "bad-case".into() };
+    let ops: Vec<&str> = ops_s.split('.').filter(|o| !o.is_empty()).collect();
+    if !(1..=3).contains(&n) || !(1..=4).contains(&cap) || ops.len() > 40 {
+        return "bad-case".into();
+    }
+    // validate (slots are made by g / c in order; h<j> must name an existing one)
+    {
+        let d3 = |c: u8| c.is_ascii_digit() && c - b'0' < 3;
+        let mut slots = 0usize;
+        for op in &ops {
+            let b = op.as_bytes();
+            let ok = match b[0] {
+                b'A' | b'x' => b.len() == 2 && d3(b[1]),
+                b'g' => {
+                    slots += 1;
+                    b.len() == 2 && d3(b[1])
+                }
+                b'c' => {
+                    slots += b.len() - 1;
+                    (2..=4).contains(&b.len()) && b[1..].iter().all(|c| d3(*c))
+                }
+                b'h' => (2..=3).contains(&b.len()) && b[1..].iter().all(|c| c.is_ascii_digit()) && op[1..].parse::<usize>().map(|j| j < slots).unwrap_or(false),
+                _ => false,
+            };
+            if !ok {
+                return "bad-case".into();
+            }
+        }
+    }
+    let n = n as usize;
+    let shape = Shape { nodes: n, dcs: 1, racks: 1, shards: 0, msb: 12, vnodes: 2, strat: Strat::Simple(n), seed: 1 };
+    let reg = MetaRegistry::new();
+    let vers = Arc::new(Mutex::new([0usize; 3]));
+    for t in 0..3 {
+        reg.set(&cs_id(CS_TEXTS[t], 0), &cm_mid(t, 0), cm_specs(0));
+    }
+    let reg_h = reg.clone();
+    let vers_h = Arc::clone(&vers);
+    // what the node encoded for a request: pk as given, v = the version, w = "w<version>"
+    let handler: ClusterHandler = Box::new(move |r: &Req| match &r.parsed {
+        Parsed::Prepare { text } => {
+            let bind = Specs::new("ks", "t", &[("pk", CqlT::Native(T_BLOB))]);
+            vec![reg_h.answer_prepare(r, &cs_id(text, 0), &bind, &[0]).unwrap_or_else(|| act_error(0x2000, "unknown statement text", &[]))]
+        }
+        Parsed::Execute { id, params, .. } => {
+            let pk = params.values.first().cloned().flatten();
+            let t = (0..3).find(|t| cs_id(CS_TEXTS[*t], 0) == *id);
+            let ver = t.map(|t| vers_h.lock().unwrap()[t]).unwrap_or(0);
+            vec![reg_h
+                .answer_execute(r, None, |specs| {
+                    vec![specs.cols.iter().map(|(name, _)| match name.as_str() {
+                        "pk" => pk.clone(),
+                        "v" => c_int(ver as i32),
+                        _ => c_text(&format!("w{}", ver)),
+                    }).collect()]
+                })
+                .unwrap_or_else(|| act_error(0x2500, "unprepared", &[]))]
+        }
+        _ => vec![act_void()],
+    });
+    let rt = runtime(if ops.iter().any(|o| o.starts_with('c')) { 2 } else { 1 });
+    rt.block_on(async {
+        use scylla::client::caching_session::CachingSessionBuilder;
+        use scylla::value::{CqlValue, Row};
+        let cluster = MockCluster::start(shape.topology(), handler).await;
+        cluster.enable_metadata_id_ext();
+        let session = match connect(&cluster, |b| b).await {
+            Ok(s) => s,
+            Err(skip) => return skip,
+        };
+        let cs = Arc::new(CachingSessionBuilder::new(session).max_capacity(cap as usize).build());
+        let user_frames = |c: &MockCluster| -> Vec<Req> { c.user_frames().into_iter().filter(|f| [mk::OP_PREPARE, mk::OP_EXECUTE, mk::OP_BATCH].contains(&f.opcode)).collect() };
+        let mut out: Vec<String> = Vec::new();
+        // the handles the caller holds: (text, handle, last version presented through it, version it was last told itself)
+        let mut slots: Vec<(usize, scylla::statement::prepared::PreparedStatement, Option<usize>, Option<usize>)> = Vec::new();
+        // preparations per text in a window of frames: one PREPARE per node each
+        let preps = |frames: &[Req], allowed: &[usize], ctx: &mut Ctx| -> String {
+            let mut per = [0usize; 3];
+            for f in frames {
+                if let Parsed::Prepare { text } = &f.parsed {
+                    match (0..3).find(|t| CS_TEXTS[*t] == text) {
+                        Some(t) if allowed.contains(&t) => per[t] += 1,
+                        _ => ctx.fail(format!("a PREPARE of bytes nobody asked for: x{}", hex(text.as_bytes()))),
+                    }
+                }
+            }
+            for c in per {
+                if c % n != 0 {
+                    ctx.fail(format!("{} PREPARE frames of one text on {} nodes: not one per node and preparation", c, n));
+                }
+            }
+            per.iter().map(|c| (c / n).to_string()).collect::<Vec<_>>().join(".")
+        };
+        for (idx, op) in ops.iter().enumerate() {
+            let before = user_frames(&cluster).len();
+            let b = op.as_bytes();
+            match b[0] {
+                b'A' => {
+                    let t = (b[1] - b'0') as usize;
+                    let ver = {
+                        let mut v = vers.lock().unwrap();
+                        v[t] += 1;
+                        v[t]
+                    };
+                    reg.set(&cs_id(CS_TEXTS[t], 0), &cm_mid(t, ver), cm_specs(ver));
+                    out.push((*op).to_owned());
+                }
+                b'g' | b'c' => {
+                    let texts: Vec<usize> = b[1..].iter().map(|c| (*c - b'0') as usize).collect();
+                    let barrier = Arc::new(tokio::sync::Barrier::new(texts.len()));
+                    let mut tasks = Vec::new();
+                    for t in &texts {
+                        let cs2 = Arc::clone(&cs);
+                        let bar = Arc::clone(&barrier);
+                        let text = CS_TEXTS[*t];
+                        tasks.push(tokio::spawn(async move {
+                            bar.wait().await;
+                            cs2.add_prepared_statement(&Statement::new(text)).await
+                        }));
+                    }
+                    for (t, task) in texts.iter().zip(tasks) {
+                        match task.await {
+                            Ok(Ok(h)) => {
+                                if h.get_statement() != CS_TEXTS[*t] || h.get_id()[..] != cs_id(CS_TEXTS[*t], 0)[..] {
+                                    ctx.fail(format!("add_prepared_statement of text {} returned a handle with id {} / another text", t, show_id(h.get_id())));
+                                }
+                                slots.push((*t, h, None, None));
+                            }
+                            Ok(Err(e)) => {
+                                ctx.fail(format!("add_prepared_statement of text {} failed on a healthy cluster: {}", t, e));
+                                return "e2e-skip add failed".to_owned();
+                            }
+                            Err(_) => return "e2e-skip join".to_owned(),
+                        }
+                    }
+                    let frames: Vec<Req> = user_frames(&cluster).into_iter().skip(before).collect();
+                    out.push(format!("{}~p={}", op, preps(&frames, &texts, ctx)));
+                }
+                b'h' | b'x' => {
+                    let pk = vec![idx as u8, b[1]];
+                    let (t, res, slot) = if b[0] == b'h' {
+                        let j: usize = op[1..].parse().unwrap();
+                        let t = slots[j].0;
+                        (t, cs.get_session().execute_unpaged(&slots[j].1, (pk.clone(),)).await, Some(j))
+                    } else {
+                        let t = (b[1] - b'0') as usize;
+                        (t, cs.execute_unpaged(CS_TEXTS[t], (pk.clone(),)).await, None)
+                    };
+                    let cur = vers.lock().unwrap()[t];
+                    let frames: Vec<Req> = user_frames(&cluster).into_iter().skip(before).collect();
+                    let execs: Vec<&Req> = frames.iter().filter(|f| matches!(f.parsed, Parsed::Execute { .. })).collect();
+                    if execs.len() != 1 {
+                        ctx.fail(format!("one execution put {} EXECUTE frames on the wire", execs.len()));
+                        out.push(format!("{}~frames={}", op, execs.len()));
+                        continue;
+                    }
+                    let Parsed::Execute { id, result_metadata_id, params } = &execs[0].parsed else { unreachable!() };
+                    if id[..] != cs_id(CS_TEXTS[t], 0)[..] {
+                        ctx.fail(format!("execution of text {} carries the statement id {}", t, show_id(id)));
+                    }
+                    // the protocol extension: the id of the metadata the statement object holds is presented, metadata skipped
+                    let presented = result_metadata_id.as_ref().and_then(|m| {
+                        let s = String::from_utf8_lossy(m).into_owned();
+                        s.strip_prefix(&format!("m{}v", t)).and_then(|v| v.parse::<usize>().ok())
+                    });
+                    let Some(presented) = presented else {
+                        ctx.fail(format!("EXECUTE on a connection with the extension presents the metadata id {:?}, which no node announced for this statement", result_metadata_id));
+                        out.push(format!("{}~mid=?", op));
+                        continue;
+                    };
+                    if !execs[0].metadata_ext || !params.skip_metadata {
+                        ctx.fail("EXECUTE of a statement with result columns on an extension connection must skip metadata".to_owned());
+                    }
+                    if presented > cur {
+                        ctx.fail(format!("the metadata version {} presented was never announced yet (current {})", presented, cur));
+                    }
+                    if let Some(j) = slot {
+                        // through one handle the presented version never goes backwards, and once the handle itself was told
+                        // the current version it presents it
+                        if let Some(last) = slots[j].2 && presented < last {
+                            ctx.fail(format!("handle {} presented version {} after having presented {}", j, presented, last));
+                        }
+                        if slots[j].3 == Some(cur) && presented != cur {
+                            ctx.fail(format!("handle {} was told version {} by its own last execution, yet presents {}", j, cur, presented));
+                        }
+                        slots[j].2 = Some(presented);
+                        slots[j].3 = Some(cur);
+                    }
+                    // faithful decoding: the caller sees exactly what the node encoded under its CURRENT columns
+                    let mut want: Vec<Option<CqlValue>> = vec![Some(CqlValue::Blob(pk.clone()))];
+                    if cur % 2 == 1 {
+                        want.push(Some(CqlValue::Text(format!("w{}", cur))));
+                    }
+                    want.push(Some(CqlValue::Int(cur as i32)));
+                    match res.map_err(|e| e.to_string()).and_then(|r| r.into_rows_result().map_err(|e| e.to_string())) {
+                        Ok(rr) => match rr.rows::<Row>().map_err(|e| e.to_string()).and_then(|it| it.collect::<Result<Vec<Row>, _>>().map_err(|e| e.to_string())) {
+                            Ok(rows) => {
+                                if rows.len() != 1 || rows[0].columns != want {
+                                    ctx.fail(format!("the node encoded {:?} under its current columns (version {}), the caller decoded {:?}", want, cur, rows.iter().map(|r| &r.columns).collect::<Vec<_>>()));
+                                }
+                            }
+                            Err(e) => ctx.fail(format!("rows the node encoded under its current columns (version {}) do not decode: {}", cur, e)),
+                        },
+                        Err(e) => ctx.fail(format!("execution on a healthy cluster failed: {}", e)),
+                    }
+                    let chg = (presented != cur) as u8;
+                    if b[0] == b'h' {
+                        out.push(format!("{}~mid={}~chg={}", op, presented, chg));
+                    } else {
+                        out.push(format!("{}~p={}~mid={}~chg={}", op, preps(&frames, &[t], ctx), presented, chg));
+                    }
+                }
+                _ => return "bad-case".to_owned(),
+            }
+        }
+        out.join(" ; ")
+    })
+}
+
 pub fn run(case: &str, ctx: &mut Ctx) -> String {
     let w: Vec<&str> = case.split(' ').collect();
     match w[0] {
         "pb" => run_pb(&w, ctx),
         "cs" => run_cs(&w, ctx),
+        "cm" => run_cm(&w, ctx),
         _ => "bad-case".to_owned(),
     }
 }
@@ -537,6 +951,24 @@ pub fn generate(rng: &mut Rng, tier: Tier, emit: &mut dyn FnMut(String)) {
         let cfg = format!("{}.{}.{}", rng.pick(&[1, 4, 6]), rng.pick(&["-", "8", "9"]), if rng.bool() { rng.below(1000).to_string() } else { "-".to_owned() });
         emit(format!("pb {} {} {}", cfg, fail, items.join(",")));
     }
+    // pb with server-side eviction of statements of the REBUILT batch (connection.rs:1212-1245 on it)
+    for _ in 0..if quick { 300 } else { 3000 } {
+        let len = 1 + rng.below(6) as usize;
+        let items: Vec<String> = (0..len)
+            .map(|_| {
+                let s = rng.below(4);
+                match rng.below(4) {
+                    0 => format!("P{}", 2 * s),
+                    1 | 2 => format!("Q{}v", 2 * s),
+                    _ => format!("Q{}e", 2 * s + 1),
+                }
+            })
+            .collect();
+        let k = 1 + rng.below(3) as usize;
+        let ev: Vec<String> = (0..k).map(|_| rng.below(len as u64).to_string()).collect();
+        let cfg = format!("{}.{}.{}", rng.pick(&[1, 4, 6]), rng.pick(&["-", "8", "9"]), if rng.bool() { rng.below(1000).to_string() } else { "-".to_owned() });
+        emit(format!("pb {} - {} {}", cfg, items.join(","), ev.join(".")));
+    }
     // cs: CachingSession / Session::prepare against the mock cluster
     for i in 0..if quick { 80 } else { 600 } {
         let n = 1 + rng.below(3) as usize;
@@ -545,7 +977,13 @@ pub fn generate(rng: &mut Rng, tier: Tier, emit: &mut dyn FnMut(String)) {
         let len = 4 + rng.below(10);
         let mut ops = Vec::new();
         for _ in 0..len {
-            ops.push(match rng.below(14) {
+            ops.push(match rng.below(17) {
+                14 => format!("V{}", rng.below(n as u64)),
+                15 | 16 => {
+                    let k = 2 + rng.below(2);
+                    let texts: String = (0..k).map(|_| rng.below(5).to_string()).collect();
+                    format!("c{}", texts)
+                }
                 0..=4 => format!("x{}c{}", rng.below(5), rng.below(3)),
                 5..=8 => {
                     let k = 1 + rng.below(4);
@@ -560,6 +998,33 @@ pub fn generate(rng: &mut Rng, tier: Tier, emit: &mut dyn FnMut(String)) {
         }
         emit(format!("cs n={} cap={} u={} sh={} ops={}", n, cap, rng.below(2), sh, ops.join(".")));
     }
+    // the eviction victim pinned: capacity 1 (forced) and 2 (three texts added, then every probe order)
+    emit("cs n=1 cap=1 u=0 sh=0 ops=x0c0.x1c0.x0c0.x1c0.x1c0.x2c1.x1c0.x2c0".to_owned());
+    for (a, b, c) in [(0, 1, 2), (0, 2, 1), (1, 0, 2), (1, 2, 0), (2, 0, 1), (2, 1, 0)] {
+        for cap in [2, 3] {
+            emit(format!("cs n=2 cap={} u=1 sh=0 ops=x0c0.x1c0.x2c0.x3c0.x{}c1.x{}c1.x{}c1.x3c2", cap, a, b, c));
+            emit(format!("cs n=1 cap={} u=0 sh=0 ops=bq0q1.x2c0.x{}c1.x{}c1.bq{}q3.x3c0.x{}c0", cap, a, b, c, a));
+        }
+    }
+    // capacity pinned from both sides: cap+1 texts added one after another, then probed forward and backward
+    for cap in 1..=3usize {
+        let adds: Vec<String> = (0..=cap).map(|t| format!("x{}c0", t)).collect();
+        let fwd: Vec<String> = (0..=cap).map(|t| format!("x{}c1", t)).collect();
+        let bwd: Vec<String> = (0..=cap).rev().map(|t| format!("x{}c2", t)).collect();
+        emit(format!("cs n=1 cap={} u=0 sh=0 ops={}.{}", cap, adds.join("."), fwd.join(".")));
+        emit(format!("cs n=2 cap={} u=1 sh=0 ops={}.{}", cap, adds.join("."), bwd.join(".")));
+        emit(format!("cs n=1 cap={} u=1 sh=0 ops={}.{}.{}", cap, adds.join("."), bwd.join("."), fwd.join(".")));
+    }
+    // concurrent callers of one CachingSession, then probes that pin what the cache holds
+    for texts in ["00", "01", "000", "012", "001"] {
+        for cap in [1, 2] {
+            emit(format!("cs n=2 cap={} u=0 sh=0 ops=c{}.x0c0.x1c0.x2c0.x0c1", cap, texts));
+            emit(format!("cs n=1 cap={} u=1 sh=0 ops=x0c0.c{}.x1c0.x0c0.c{}.x2c0", cap, texts, texts));
+        }
+    }
+    // server-side eviction at the Session level: the node forgets, the next execution / batch is re-prepared transparently
+    emit("cs n=1 cap=2 u=0 sh=0 ops=x0c0.V0.x0c0.bq0p1.V0.bq0p1.x0c1".to_owned());
+    emit("cs n=2 cap=2 u=1 sh=0 ops=x0c0.x3c0.V0.V1.x0c0.x3c0.bq0q3p1.V0.V1.bq0q3p1".to_owned());
     // prepare-on-all, directed: for every node subset refusing / answering another id (3 nodes), one preparation
     for mask in 0..27u32 {
         // per node: 0 = fine, 1 = refuses, 2 = other id
@@ -577,5 +1042,41 @@ pub fn generate(rng: &mut Rng, tier: Tier, emit: &mut dyn FnMut(String)) {
         ops.push("x0c0".to_owned());
         ops.push("bq0q1".to_owned());
         emit(format!("cs n=3 cap=2 u=1 sh={} ops={}", if mask % 2 == 0 { 0 } else { 2 }, ops.join(".")));
+    }
+    // cm: CachingSession handles and the shared result metadata (metadata-id extension). Directed: hits share the
+    // statement object, concurrent misses need not, an evicted object lives on in its handles; then random histories
+    for cap in [1, 2, 3] {
+        emit(format!("cm n=1 cap={} ops=g0.g0.A0.h0.h1.x0.A0.h1.h0.x0", cap));
+        emit(format!("cm n=2 cap={} ops=c00.A0.h0.h1.x0.h0.h1", cap));
+        emit(format!("cm n=2 cap={} ops=c000.A0.h2.h1.h0.x0.g0.h3", cap));
+        emit(format!("cm n=1 cap={} ops=g0.g1.g0.A0.h0.h2.x0.h2", cap));
+        emit(format!("cm n=1 cap={} ops=x0.A0.x0.x0.g0.A0.h0.x0.g0.h1", cap));
+        emit(format!("cm n=3 cap={} ops=c012.A0.A1.A1.x0.x1.x2.h0.h1.h2.g1.h3", cap));
+        emit(format!("cm n=1 cap={} ops=c01.c01.A0.A1.h0.h2.h1.h3.x0.x1", cap));
+        emit(format!("cm n=2 cap={} ops=g0.c00.A0.h1.h2.h0.A0.x0.h0.h1.h2", cap));
+    }
+    for _ in 0..if quick { 40 } else { 400 } {
+        let len = 4 + rng.below(12);
+        let mut slots = 0u64;
+        let mut ops: Vec<String> = Vec::new();
+        for _ in 0..len {
+            let t = if rng.chance(2, 3) { 0 } else { rng.below(3) };
+            ops.push(match rng.below(10) {
+                0 | 1 => {
+                    slots += 1;
+                    format!("g{}", t)
+                }
+                2 | 3 => {
+                    let k = 2 + rng.below(2);
+                    slots += k;
+                    format!("c{}", (0..k).map(|_| if rng.chance(3, 4) { t.to_string() } else { rng.below(3).to_string() }).collect::<String>())
+                }
+                4 | 5 => format!("A{}", t),
+                6 => format!("x{}", t),
+                _ if slots > 0 => format!("h{}", rng.below(slots.min(100))),
+                _ => format!("x{}", t),
+            });
+        }
+        emit(format!("cm n={} cap={} ops={}", 1 + rng.below(3), 1 + rng.below(3), ops.join(".")));
     }
 }
